@@ -36,7 +36,7 @@ def _finite_cfg(draw, fams=FAMS):
     cfg = draw(nonneg.config(fam, min_N=5, max_N=400))
     if cfg["N"] is None:
         cfg["N"] = draw(st.integers(5, 400))
-    cfg["random_order"] = True
+    # (random_order stays as generated: the estimate is a first-crossing time of the *history*, whichever overall value the test reports)
     return cfg
 
 
